@@ -11,10 +11,17 @@ THEOREMS = ["C11_spacing_tol", "C11_congruent_tol", "C11_iff", "C11_refuse", "C1
             "C11_regular_grid_accepted", "C11_add", "C11_add_transactional"]
 ALLOWED_AXIOMS = []
 RULE = ("synthetic in-memory DICOM series: S<=4 x T<=3 x V<=3 grids (thorough: S<=6, T<=4) in 7 orientations "
-        "(axial, two in-plane rotations, sagittal, coronal, three 3-4-5 / 1-2-2 obliques) x both slice directions, "
-        "explicit time / vector / both orderings (plain key or DicomOrdering with abs_ordering) or guessed key with decoy keys, "
-        "x 21 defect classes x random add order x random order of the four queries; a case is non-trivial when at least "
-        "one add is refused, or a query raises, or the stack has more than one volume")
+        "(axial, in-plane rotation, sagittal, coronal, two 3-4-5 obliques, one 2-3-6 double oblique) x both slice "
+        "directions; explicit time / vector / both orderings (plain key, DicomOrdering with abs_ordering, staggered time "
+        "values that straddle volume boundaries) or guessed key with decoy keys; per-file BitsStored / "
+        "PixelRepresentation / pixel range / AcquisitionTime presence varied; x 26 defect classes (none, drop 1 / k "
+        "files, drop a volume, drop a slice position, duplicate, misfiled duplicate, tie straddling a volume "
+        "boundary, irregular gap 0.8..25 %, Rows / Columns +1, PixelSpacing and orientation perturbed below / above "
+        "5e-5, no pixel data, colliding file, missing ordering key, extra slice position, vector value moved for a "
+        "whole volume, files moved between vector components so that one volume-sized chunk straddles two vector "
+        "values, positions swapped between volumes, ordinate not in abs_ordering) x random add order x random order "
+        "of the four queries; a case is non-trivial when at least one add is refused, or a query raises, or the "
+        "stack has more than one volume")
 TRUSTED_BASE = [
     "nibabel DicomWrapper (slice_indicator, affine) and dcmstack.extract.default_extractor are contracts: the per-file "
     "abstraction given to the model (slice position, ordinates, guess-key values, Rows/Columns/PixelSpacing/"
@@ -40,7 +47,7 @@ QUERIES = [['shape'], ['data'], ['affine'], ['nifti', 'LAS', False]]
 
 
 def gen_cases(rng, tier):
-    n = 420 if tier == 'quick' else 3000
+    n = 640 if tier == 'quick' else 4000
     cases = []
     for k in range(n):
         cfg = L.rand_config(rng, tier)
